@@ -65,19 +65,23 @@ Qed.
 Print Assumptions E2E_no_match_untouched.
 
 (* ---- (c) path and order -------------------------------------------------------------
-   Every executed processor lies, in the graph of its own flow, on a path from
-   the entry point (after a hand-over: from a response connection of the
-   answering processor) all of whose connections carry the condition output by
-   their source (C04_flow_path); and a transaction that is not abandoned runs
-   the groups in the engine's order: request = start-system flows, user flows up
-   to and including the first in which a processor answers, end-system flows,
-   then - if answered - the response order of the flows selected for the
-   transaction typed as a response; response = the same groups, each in reverse
-   selection order (C04_system_order, C04_system_order_response). *)
+   Every executed processor lies, in the graph of its own flow, on a path all of
+   whose connections carry the condition output by their source
+   (C04_flow_path), starting at the entry point of the direction or - response
+   direction only - at the target of a response connection of a processor OF
+   THE SAME FLOW THAT ANSWERED THE REQUEST EARLIER IN THIS TRACE (the event of
+   that processor precedes the event in question: [on_root_path]); and a
+   transaction that is not abandoned runs the groups in the engine's order:
+   request = start-system flows, user flows up to and including the first in
+   which a processor answers, end-system flows, then - if answered - the
+   response order of the flows selected for the transaction typed as a response;
+   response = the same groups, each in reverse selection order
+   (C04_system_order, C04_system_order_response). *)
 Theorem E2E_path : forall fuel cfg beh x,
   cfg_ok cfg ->
   (forall ev, In ev (o_trace (engine fuel cfg beh x)) ->
-     exists e, In e cfg /\ eid e = e_flow ev /\ on_root_path beh e ev)
+     exists e, In e cfg /\ eid e = e_flow ev
+               /\ on_root_path beh (o_trace (engine fuel cfg beh x)) e ev)
   /\ (o_error (engine fuel cfg beh x) = None ->
       o_trace (engine fuel cfg beh x)
       = if F.t_resp x
@@ -88,6 +92,48 @@ Proof.
   intros ev I. destruct (engine_event fuel cfg beh x ev OK I) as [e [A [B [_ D]]]]. exists e. auto.
 Qed.
 Print Assumptions E2E_path.
+
+(* ---- (c') clause 5 end to end: "the response path continues from that
+   processor's response connection" ---------------------------------------------------
+   Request that is not abandoned; a processor of USER flow e answered it.  The
+   flow is found again by the second GetFlow exactly when its own status
+   requirement allows a response-typed stream that has no response object
+   ([found_again] = C03's status_ok on [as_response x]: the flow lists no status
+   codes; URL and method are the request's, header / query requirements are not
+   judged on a response).  Then, after the request part, flow e contributes -
+   exactly once, at its place in the reversed user selection - the walk from the
+   targets of all response connections of the answering processor; every other
+   flow found runs from its entry point. *)
+Theorem E2E_response_continues : forall fuel cfg beh x e ev,
+  cfg_ok cfg -> F.t_resp x = false ->
+  o_error (engine fuel cfg beh x) = None ->
+  In e cfg -> F.f_kind (ef_filter e) = 0 ->
+  In ev (o_trace (engine fuel cfg beh x)) ->
+  e_flow ev = eid e -> e_dir ev = Req -> ev_answers beh ev = true ->
+  found_again e x = true ->
+  exists s' us1 us2 reqpart,
+    reselect cfg x = Some s'
+    /\ rev (s_user s') = us1 ++ graph_of e :: us2
+    /\ ~ In (eid e) (map fname us1) /\ ~ In (eid e) (map fname us2)
+    /\ Forall (fun e' => e_dir e' = Req) reqpart /\ In ev reqpart
+    /\ o_trace (engine fuel cfg beh x)
+       = reqpart
+         ++ flat_map (flow_events fuel beh Res None) (rev (s_start s'))
+         ++ (flat_map (flow_events fuel beh Res None) us1
+             ++ flow_events fuel beh Res (Some (e_key ev)) (graph_of e)
+             ++ flat_map (flow_events fuel beh Res None) us2)
+         ++ flat_map (flow_events fuel beh Res None) (rev (s_end s')).
+Proof. exact engine_response_continues. Qed.
+Print Assumptions E2E_response_continues.
+
+(* ... and otherwise (the flow lists status codes: no response object can carry
+   one) nothing of that flow runs on the response side of the request: its own
+   filter does not accept the transaction typed as a response (clause 0). *)
+Theorem E2E_not_found_again : forall fuel cfg beh x e ev,
+  cfg_ok cfg -> F.t_resp x = false -> In e cfg -> found_again e x = false ->
+  In ev (o_trace (engine fuel cfg beh x)) -> e_flow ev = eid e -> e_dir ev = Req.
+Proof. exact engine_not_found_again. Qed.
+Print Assumptions E2E_not_found_again.
 
 (* ---- (d) termination -------------------------------------------------------------------
    With C05's budget for the loaded graphs the transaction ends with actions or
@@ -121,6 +167,39 @@ Theorem E2E_loaded_is_valid : forall cf cfg,
   L.load cf = L.Accept (graphs cfg) -> Forall LP.flow_valid (graphs cfg).
 Proof. exact loaded_valid. Qed.
 Print Assumptions E2E_loaded_is_valid.
+
+(* The error "failed to get response node" is the open finding F-C04d: with
+   C05's budget a transaction is abandoned ONLY when it is a request in which an
+   executed processor answered without having a node on the response side of
+   its flow; outside it ([e2e_dropped] = false on the trace: what the monitor
+   computes over the observed events) every transaction ends with actions. *)
+Theorem E2E_abandoned_only_by_F_C04d : forall cfg beh x o,
+  cfg_ok cfg -> o_error (engine (fuel_of cfg) cfg beh x) = Some o ->
+  F.t_resp x = false
+  /\ exists k e c, o = NoRespNode k /\ In e cfg
+       /\ In {| e_flow := eid e; e_key := k; e_dir := Req; e_cond := c |}
+             (o_trace (engine (fuel_of cfg) cfg beh x))
+       /\ answers (beh (eid e)) Req k = true /\ has_node (ef_res e) k = false.
+Proof. exact engine_abandoned. Qed.
+Print Assumptions E2E_abandoned_only_by_F_C04d.
+
+Theorem E2E_never_abandoned_outside_F_C04d : forall cfg beh x,
+  cfg_ok cfg ->
+  e2e_dropped cfg beh (o_trace (engine (fuel_of cfg) cfg beh x)) = false ->
+  o_error (engine (fuel_of cfg) cfg beh x) = None.
+Proof. exact engine_outside. Qed.
+Print Assumptions E2E_never_abandoned_outside_F_C04d.
+
+(* The budget does not matter once it is C05's: every larger fuel gives the same
+   transaction (trace, result, invocations) - so the statements made "for every
+   fuel" above are, from [fuel_of cfg] on, statements about ONE behaviour, and
+   the two correspondence suites (fuel_for / exec_fuel) evaluate the same
+   function whenever both budgets are enough (C04_fuel_independent). *)
+Theorem E2E_fuel_independent : forall fuel cfg beh x,
+  cfg_ok cfg -> (fuel_of cfg <= fuel)%nat ->
+  engine fuel cfg beh x = engine (fuel_of cfg) cfg beh x.
+Proof. exact engine_fuel. Qed.
+Print Assumptions E2E_fuel_independent.
 
 (* ---- (e) the resulting action ------------------------------------------------------------
    The action handed to the proxy is C07's combination of the actions of the
@@ -173,6 +252,17 @@ Theorem E2E_early_response : forall fuel cfg beh ao x ev,
                          \/ exists e, In e cfg /\ eid e = e_flow e' /\ F.f_kind (ef_filter e) = 2) post.
 Proof. exact engine_early_response. Qed.
 Print Assumptions E2E_early_response.
+
+(* The two oracle hypotheses of E2E_early_response in the finite form [run_txn]
+   checks on every request of suite e2e for the PREDICTED action oracle: they
+   imply the quantified ones for the decoded oracles. *)
+Theorem E2E_oracle_hypotheses_checked : forall cfg orc areal,
+  coherentb orc areal = true -> sys_quietb cfg orc = true ->
+  coherent (dec_orc orc) (dec_ao areal) /\ sys_quiet cfg (dec_orc orc).
+Proof.
+  intros cfg orc areal C S. split; [apply coherentb_sound; exact C|apply sys_quietb_sound; exact S].
+Qed.
+Print Assumptions E2E_oracle_hypotheses_checked.
 
 (* ======== non-vacuity: a concrete configuration ==================================== *)
 
@@ -289,3 +379,68 @@ Example E2E_demo_early_hypotheses :
   /\ In (ev 1 2 Req 0) (o_trace (engine (fuel_of demo) demo (demo_beh 1) x))
   /\ ev_answers (demo_beh 1) (ev 1 2 Req 0) = true.
 Proof. vm_compute. repeat split; auto. Qed.
+
+(* clause 5 on the demo: Gen (flow 1, key 2) answered the POST; flow 1 lists no
+   status codes, so it is found again and continues from Gen's response
+   connection (T = 4), flow 2 runs from its entry point (V = 6) *)
+Example E2E_demo_continues :
+  let x := dec_txn (TX false "api.com/v1/items" "POST" [] [] 0) in
+  forall e, In e demo -> eid e = 1 ->
+    F.f_kind (ef_filter e) = 0 /\ found_again e x = true
+    /\ flow_events (fuel_of demo) (demo_beh 1) Res (Some 2) (graph_of e) = [ev 1 4 Res 1].
+Proof.
+  intros x e I E. unfold demo, demo_flows in I. cbn [map] in I.
+  destruct I as [I|[I|[I|[I|[]]]]]; subst e; vm_compute in E; try discriminate E.
+  vm_compute. repeat split; reflexivity.
+Qed.
+
+(* the same configuration with a status requirement on flow 1: Gen still answers
+   the POST (the action is its early response) but flow 1 is NOT found again by
+   the second lookup - a request has no response object - so T does not run;
+   flow 2 and the end-system flow see the response as before.  A real 200
+   response does select flow 1. *)
+Definition demo_st_flows : list cflow :=
+  [ FL 100 1 "*" [] [] [] [] (GD 10 [GN 10 [GE 0 (-1)]]) (GD (-1) []);
+    FL 1 0 "api.com/v1/*" [] [] [] [200]
+       (GD 1 [GN 1 [GE 1 2; GE 2 (-1)]; GN 2 []])
+       (GD 3 [GN 3 [GE 1 (-1)]; GN 2 [GE 0 4]; GN 4 [GE 1 (-1)]]);
+    FL 2 0 "api.com/v1/items" ["POST"%string] [] [] []
+       (GD 5 [GN 5 [GE 1 (-1)]]) (GD 6 [GN 6 [GE 1 (-1)]]);
+    FL 101 2 "api.com/*" [] [] [] [] (GD (-1) []) (GD 11 [GN 11 [GE 0 (-1)]]) ].
+Definition demo_st : econfig := map dec_flow demo_st_flows.
+
+Example E2E_demo_status :
+  cfg_ok demo_st
+  /\ (let r := engine (fuel_of demo_st) demo_st (demo_beh 1) (dec_txn (TX false "api.com/v1/items" "POST" [] [] 0)) in
+      r = {| o_trace := [ev 100 10 Req 0; ev 1 1 Req 1; ev 1 2 Req 0; ev 2 6 Res 1; ev 101 11 Res 0];
+             o_error := None; o_invoked := [1] |}
+      /\ action_req demo_ao r = A.REarly 429 (F.bs "slow down") [(F.bs "content-type", F.bs "text/plain")])
+  /\ o_trace (engine (fuel_of demo_st) demo_st (demo_beh 1) (dec_txn (TX true "api.com/v1/items" "POST" [] [] 200)))
+     = [ev 2 6 Res 1; ev 1 3 Res 1; ev 101 11 Res 0]
+  /\ o_trace (engine (fuel_of demo_st) demo_st (demo_beh 1) (dec_txn (TX true "api.com/v1/items" "POST" [] [] 404)))
+     = [ev 2 6 Res 1; ev 101 11 Res 0].
+Proof.
+  split; [apply cfg_okb_sound; vm_compute; reflexivity|]. vm_compute. repeat split; reflexivity.
+Qed.
+
+(* F-C04d on the demo shape: Gen without a node on the response side - the
+   request is abandoned, the early response dropped (the action is the neutral
+   one), and the classifier says so *)
+Definition demo_drop_flows : list cflow :=
+  [ FL 1 0 "api.com/v1/*" [] [] [] []
+       (GD 1 [GN 1 [GE 1 2; GE 2 (-1)]; GN 2 []])
+       (GD 3 [GN 3 [GE 1 (-1)]]);
+    FL 101 2 "api.com/*" [] [] [] [] (GD (-1) []) (GD 11 [GN 11 [GE 0 (-1)]]) ].
+Definition demo_drop : econfig := map dec_flow demo_drop_flows.
+
+Example E2E_demo_dropped :
+  cfg_ok demo_drop
+  /\ (let r := engine (fuel_of demo_drop) demo_drop (demo_beh 1) (dec_txn (TX false "api.com/v1/items" "POST" [] [] 0)) in
+      r = {| o_trace := [ev 1 1 Req 1; ev 1 2 Req 0]; o_error := Some (NoRespNode 2); o_invoked := [1] |}
+      /\ action_req demo_ao r = A.RNoOp
+      /\ e2e_dropped demo_drop (demo_beh 1) (o_trace r) = true)
+  /\ e2e_dropped demo (demo_beh 1)
+       (o_trace (engine (fuel_of demo) demo (demo_beh 1) (dec_txn (TX false "api.com/v1/items" "POST" [] [] 0)))) = false.
+Proof.
+  split; [apply cfg_okb_sound; vm_compute; reflexivity|]. vm_compute. repeat split; reflexivity.
+Qed.
